@@ -6,6 +6,7 @@ import (
 	"strings"
 	"sync"
 	"time"
+	"unicode/utf8"
 
 	imap "github.com/emersion/go-imap/v2"
 	"github.com/emersion/go-imap/v2/imapclient"
@@ -96,7 +97,7 @@ func checkLegal(cfg capCfg, c *peerCmd) []string {
 func runC18(h *H) {
 	imports := []string{"From GoImap.Base Require Import Bytes.", "From GoImap.Model Require Import Wire ClientWrite."}
 	corr := h.NewCorr("cmdbytes", imports, "cw_mismatches", 600).Type("cw_case")
-	h.Rule("real imapclient.Client against a scripted server, for capability sets {IMAP4rev1, +LITERAL-, +LITERAL+, IMAP4rev2, rev1+rev2, +ENABLE UTF8=ACCEPT (enabled or not)}: LOGIN, SELECT, EXAMINE, CREATE, DELETE, RENAME, SUBSCRIBE, UNSUBSCRIBE, STATUS, COPY, MOVE, LIST, SEARCH (string keys; the MODSEQ entry name) and APPEND (sizes 0, 1, 4095..4097, 5000) with string arguments from the classes {plain, space, quote, backslash, CR, LF, NUL, 8-bit UTF-8, invalid UTF-8, 4096 and 4097 bytes, empty}; the server delays every continuation request (payload before '+' is a violation) and in a second pass refuses every synchronising literal with a tagged NO or BAD [TOOBIG], alternating (any payload byte afterwards is a violation; other commands and the connection must stay usable); in a third pass only the first literal of LOGIN, RENAME and APPEND (its mailbox name, message of 11 and 5000 bytes) is refused: no byte of the command may follow and the next literal must get its own continuation request. Every received command is scanned by an independent tokenizer against the advertised capabilities; the exact bytes of string-only commands are re-derived by the model inside Coq. Non-trivial = the argument needed a literal or 8-bit quoting; distinct by (caps, command, argument).")
+	h.Rule("real imapclient.Client against a scripted server, for capability sets {IMAP4rev1, +LITERAL-, +LITERAL+, IMAP4rev2, rev1+rev2, +ENABLE UTF8=ACCEPT (enabled or not)}: LOGIN, SELECT, EXAMINE, CREATE, DELETE, RENAME, SUBSCRIBE, UNSUBSCRIBE, STATUS, COPY, MOVE, LIST, SEARCH (string keys; the MODSEQ entry name) and APPEND (sizes 0, 1, 4095..4097, 5000) with string arguments from the classes {plain, space, quote, backslash, CR, LF, NUL, 8-bit UTF-8, invalid UTF-8, 4096 and 4097 bytes, empty}; the server delays every continuation request (payload before '+' is a violation) and in a second pass refuses every synchronising literal with a tagged NO or BAD [TOOBIG], alternating (any payload byte afterwards is a violation; other commands and the connection must stay usable); in a third pass only the first literal of LOGIN, RENAME and APPEND (its mailbox name, message of 11 and 5000 bytes) is refused: no byte of the command may follow and the next literal must get its own continuation request. The string classes include multi-byte strings above 4096 bytes but below 4096 characters (2049 x e-acute, 1400 x euro sign + LF). A further history pass varies the server's ANSWER to ENABLE UTF8=ACCEPT (ENABLED naming it, empty ENABLED, ENABLED of another capability, bare OK, NO, BAD; UTF8=ACCEPT advertised or not): 8-bit quoted strings are legal afterwards only if the server's ENABLED named UTF8=ACCEPT. Every received command is scanned by an independent tokenizer against the advertised capabilities; the exact bytes of string-only commands are re-derived by the model inside Coq. Non-trivial = the argument needed a literal or 8-bit quoting; distinct by (caps, command, argument).")
 
 	cfgs := []capCfg{{"IMAP4rev1", false}, {"IMAP4rev1 LITERAL-", false}, {"IMAP4rev1 LITERAL+", false}, {"IMAP4rev2", false},
 		{"IMAP4rev1 IMAP4rev2", false}, {"IMAP4rev1 ENABLE UTF8=ACCEPT", false}, {"IMAP4rev1 ENABLE UTF8=ACCEPT", true}, {"IMAP4rev1 ENABLE UTF8=ACCEPT LITERAL+", true},
@@ -104,7 +105,16 @@ func runC18(h *H) {
 		{"IMAP4rev1 ENABLE UTF8=ONLY", false}, {"IMAP4rev1 ENABLE UTF8=ONLY LITERAL-", false}}
 	strs := []string{"abc", "a b", `a"b`, `a\b`, "a\rb", "a\nb", "a\x00b", "é", "a\xffb", "", strings.Repeat("x", 4096), strings.Repeat("y", 4097), "x\r\nA9 LOGOUT"}
 	if h.Thorough() {
-		strs = append(strs, strings.Repeat("é", 2048), strings.Repeat("é", 2049), "\"", "\\", "\r", "\n", " ", "{5}", "{5+}\r\n")
+		strs = append(strs, strings.Repeat("é", 2048), "\"", "\\", "\r", "\n", " ", "{5}", "{5+}\r\n")
+	}
+	// the 4096 threshold is one of BYTES: multi-byte strings whose byte length is above it while
+	// their character count is below it, with and without a character that forces a literal even
+	// under UTF-8 quoting (quick tier: first pass only, they cost large literals)
+	// quick tier: one astring command, one mailbox command and SEARCH get them
+	wideOps := map[string]bool{"LOGIN": true, "SELECT": true, "SEARCH": true}
+	wide := []string{strings.Repeat("é", 2049), strings.Repeat("€", 1400) + "\n"}
+	if h.Thorough() {
+		wide = append(wide, strings.Repeat("é", 4096), strings.Repeat("é", 4097), strings.Repeat("\U0001F600", 1025), "\r"+strings.Repeat("ü", 2048))
 	}
 
 	type op struct {
@@ -195,12 +205,19 @@ func runC18(h *H) {
 				}
 			}
 			dead := false
+			passStrs := strs
+			if !refuse || h.Thorough() {
+				passStrs = append(append([]string(nil), strs...), wide...)
+			}
 			for _, o := range ops {
-				for _, s := range strs {
+				for si, s := range passStrs {
 					if dead {
 						break
 					}
-					desc := map[string]interface{}{"caps": cfg, "command": o.name, "arg_hex": fmt.Sprintf("%x", s), "refuse_literals": refuse}
+					if si >= len(strs) && !h.Thorough() && !wideOps[o.name] {
+						continue
+					}
+					desc := map[string]interface{}{"caps": cfg, "command": o.name, "arg_hex": fmt.Sprintf("%x", s[:min(len(s), 64)]), "arg_bytes": len(s), "arg_runes": utf8.RuneCountInString(s), "refuse_literals": refuse}
 					h.InFlight(desc)
 					before := len(peer.Commands())
 					var err error
@@ -374,6 +391,122 @@ func runC18(h *H) {
 		}
 		withTimeout(3*time.Second, func() { client.Close() })
 		peer.Close()
+	}
+
+	// history: what the server ANSWERS to ENABLE UTF8=ACCEPT decides whether UTF8=ACCEPT is enabled,
+	// not what the client asked for: only an untagged ENABLED naming it, followed by a tagged OK,
+	// enables it. A bare tagged OK (RFC 5161: unknown names are silently ignored), an empty
+	// ENABLED, an ENABLED naming something else, NO and BAD leave it off, whether or not the
+	// server advertised UTF8=ACCEPT; afterwards 8-bit strings must still go out as literals
+	{
+		type enableAnswer struct {
+			name, untagged, status string
+			enables                bool
+		}
+		answers := []enableAnswer{
+			{"ENABLED UTF8=ACCEPT + OK", "* ENABLED UTF8=ACCEPT\r\n", "OK done", true},
+			{"empty ENABLED + OK", "* ENABLED\r\n", "OK done", false},
+			{"bare OK", "", "OK done", false},
+			{"bare OK with text naming the capability", "", "OK UTF8=ACCEPT noted", false},
+			{"ENABLED of another capability + OK", "* ENABLED CONDSTORE\r\n", "OK done", false},
+			{"NO", "", "NO not now", false},
+			{"BAD", "", "BAD unknown command", false},
+		}
+		requests := [][]imap.Cap{{imap.CapUTF8Accept}, {imap.CapMetadata, imap.CapUTF8Accept}}
+		for ci, caps := range []string{"IMAP4rev1 ENABLE", "IMAP4rev1 ENABLE UTF8=ACCEPT", "IMAP4rev1 ENABLE LITERAL- QUOTA"} {
+			for ai, ans := range answers {
+				// quick tier: one of the two request shapes per answer, alternating
+				reqs := requests
+				if !h.Thorough() {
+					reqs = requests[(ai+ci)%2 : (ai+ci)%2+1]
+				}
+				for _, req := range reqs {
+					ans := ans
+					peer := newPeer("* OK [CAPABILITY " + caps + "] ready\r\n")
+					peer.ContDelay = 2 * time.Millisecond
+					peer.OnCommand = func(p *scriptedPeer, c *peerCmd) {
+						switch {
+						case c.Name == "ENABLE":
+							p.Send(ans.untagged + c.Tag + " " + ans.status + "\r\n")
+						case c.Name == "CAPABILITY":
+							p.Send("* CAPABILITY " + caps + "\r\n" + c.Tag + " OK done\r\n")
+						case c.Name == "LOGIN":
+							p.Send(c.Tag + " OK [CAPABILITY " + caps + "] done\r\n")
+						case c.Name == "SEARCH":
+							p.Send("* SEARCH\r\n" + c.Tag + " OK done\r\n")
+						default:
+							p.Send(c.Tag + " OK done\r\n")
+						}
+					}
+					client, _ := peer.dialClient(nil)
+					base := map[string]interface{}{"caps": caps, "enable_request": fmt.Sprint(req), "enable_answer": ans.name, "server_enabled_utf8": ans.enables}
+					if err := client.WaitGreeting(); err != nil {
+						h.Fail("greeting", err.Error(), base)
+						peer.Close()
+						continue
+					}
+					steps := []struct {
+						name    string
+						enabled bool
+						run     func() error
+					}{
+						{"LOGIN", false, func() error { return client.Login("u", "p").Wait() }},
+						{"ENABLE", false, func() error {
+							_, err := client.Enable(req...).Wait()
+							if _, refused := err.(*imap.Error); refused {
+								return nil // NO / BAD is the scripted answer
+							}
+							return err
+						}},
+						{"NOOP", ans.enables, func() error { return client.Noop().Wait() }},
+						{"SEARCH-8bit", ans.enables, func() error {
+							_, err := client.Search(&imap.SearchCriteria{Text: []string{"café"}, Header: []imap.SearchCriteriaHeaderField{{Key: "Subject", Value: "naïve"}}}, nil).Wait()
+							return err
+						}},
+						{"CREATE-8bit", ans.enables, func() error { return client.Create("bôx", nil).Wait() }},
+						{"LOGIN-8bit", ans.enables, func() error { return client.Login("rené", "päss").Wait() }},
+						{"RENAME-8bit", ans.enables, func() error { return client.Rename("bôx", "cœur").Wait() }},
+					}
+					for _, st := range steps {
+						desc := map[string]interface{}{"history_step": st.name}
+						for k, v := range base {
+							desc[k] = v
+						}
+						h.InFlight(desc)
+						before := len(peer.Commands())
+						var err error
+						if !withTimeout(5*time.Second, func() { err = st.run() }) {
+							h.Fail("client-hang:"+st.name, st.name+" did not return", desc)
+							break
+						}
+						if err != nil {
+							h.Fail("command-error:"+st.name, fmt.Sprintf("%s: %v", st.name, err), desc)
+						}
+						nontrivial := false
+						for _, c := range peer.Commands()[before:] {
+							if len(c.Lits) > 0 || strings.ContainsAny(c.Line, "\xc3\xc5") {
+								nontrivial = true
+							}
+							for _, b := range checkLegal(capCfg{caps, st.enabled}, c) {
+								desc["sent"] = string(c.Raw)
+								h.Fail("illegal-output:"+strings.SplitN(b, ":", 2)[0]+":enable-answer", fmt.Sprintf("%s under [%s] after ENABLE %v was answered with %s (UTF8=ACCEPT enabled by the server: %v): %s", st.name, caps, req, ans.name, st.enabled, b), desc)
+							}
+						}
+						key := ""
+						if nontrivial {
+							key = fmt.Sprintf("enable-answer|%s|%s|%v|%s", caps, ans.name, req, st.name)
+						}
+						h.Eval(key)
+						h.Hist("cmd:enable-answer-" + st.name)
+					}
+					for _, v := range peer.Violations() {
+						h.Fail("literal-sync", v, base)
+					}
+					withTimeout(3*time.Second, func() { client.Close() })
+					peer.Close()
+				}
+			}
+		}
 	}
 
 	// history: LITERAL+ advertised before LOGIN, the LOGIN OK carries no capability code (so the
